@@ -21,6 +21,7 @@ PROP = {
   "saml2_tophat.sigver:SecurityContext.correctly_signed_message[manage_name_id_request]",
   "saml2_tophat.sigver:SecurityContext.correctly_signed_message[assertion_id_request]"
  ],
- "level": "proof",
+ "level": "other",
+ "explanation": "All obligations generated for the request-validation functions (Request._loads per request class, issue_instant_ok, _verify, verify, correctly_signed_message per message type, _check_signature) are discharged except one: the clause copied from the statement that a Destination, when present, is one of the receiver's own endpoints fails when the receiver has no endpoint configured for that service and binding (recorded known finding with a native witness).",
  "id": "C10"
 }
